@@ -26,13 +26,81 @@ const (
 	Hour        = stdtime.Hour
 )
 
-var UTC = stdtime.UTC
+var (
+	UTC   = stdtime.UTC
+	Local = stdtime.Local
+)
+
+const (
+	Layout      = stdtime.Layout
+	ANSIC       = stdtime.ANSIC
+	UnixDate    = stdtime.UnixDate
+	RubyDate    = stdtime.RubyDate
+	RFC822      = stdtime.RFC822
+	RFC822Z     = stdtime.RFC822Z
+	RFC850      = stdtime.RFC850
+	RFC1123     = stdtime.RFC1123
+	RFC1123Z    = stdtime.RFC1123Z
+	RFC3339     = stdtime.RFC3339
+	RFC3339Nano = stdtime.RFC3339Nano
+	Kitchen     = stdtime.Kitchen
+	Stamp       = stdtime.Stamp
+	StampMilli  = stdtime.StampMilli
+	StampMicro  = stdtime.StampMicro
+	StampNano   = stdtime.StampNano
+	DateTime    = stdtime.DateTime
+	DateOnly    = stdtime.DateOnly
+	TimeOnly    = stdtime.TimeOnly
+)
+
+const (
+	January   = stdtime.January
+	February  = stdtime.February
+	March     = stdtime.March
+	April     = stdtime.April
+	May       = stdtime.May
+	June      = stdtime.June
+	July      = stdtime.July
+	August    = stdtime.August
+	September = stdtime.September
+	October   = stdtime.October
+	November  = stdtime.November
+	December  = stdtime.December
+)
+
+const (
+	Sunday    = stdtime.Sunday
+	Monday    = stdtime.Monday
+	Tuesday   = stdtime.Tuesday
+	Wednesday = stdtime.Wednesday
+	Thursday  = stdtime.Thursday
+	Friday    = stdtime.Friday
+	Saturday  = stdtime.Saturday
+)
 
 func Now() Time                      { return stdtime.Now() }
 func Since(t Time) Duration          { return stdtime.Since(t) }
 func Until(t Time) Duration          { return stdtime.Until(t) }
 func Unix(sec int64, ns int64) Time  { return stdtime.Unix(sec, ns) }
 func ParseDuration(s string) (Duration, error) { return stdtime.ParseDuration(s) }
+
+// pure functions of their arguments: the real ones
+func Date(year int, month Month, day, hour, min, sec, nsec int, loc *Location) Time {
+	return stdtime.Date(year, month, day, hour, min, sec, nsec, loc)
+}
+func Parse(layout, value string) (Time, error) { return stdtime.Parse(layout, value) }
+func ParseInLocation(layout, value string, loc *Location) (Time, error) {
+	return stdtime.ParseInLocation(layout, value, loc)
+}
+func FixedZone(name string, offset int) *Location   { return stdtime.FixedZone(name, offset) }
+func LoadLocation(name string) (*Location, error)  { return stdtime.LoadLocation(name) }
+func LoadLocationFromTZData(name string, data []byte) (*Location, error) {
+	return stdtime.LoadLocationFromTZData(name, data)
+}
+func UnixMicro(usec int64) Time { return stdtime.UnixMicro(usec) }
+func UnixMilli(msec int64) Time { return stdtime.UnixMilli(msec) }
+
+type ParseError = stdtime.ParseError
 
 // Timer mirrors time.Timer. Two channel semantics are simulated, chosen per run:
 //   - synchronous (Go >= 1.23, what synctest's runtime gives): the real timer channel is used;
@@ -108,6 +176,12 @@ func NewTicker(d Duration) *Ticker {
 	sim.Pre("time.NewTicker")
 	rt := stdtime.NewTicker(d)
 	return &Ticker{C: rt.C, t: rt}
+}
+func Tick(d Duration) <-chan Time {
+	if d <= 0 {
+		return nil
+	}
+	return NewTicker(d).C
 }
 func (t *Ticker) Stop()            { t.t.Stop() }
 func (t *Ticker) Reset(d Duration) { t.t.Reset(d) }
